@@ -469,6 +469,7 @@ def check_setup(ctx, repo):
 
     # R10.5 disjointness guard dominating each destructive call
     unresolved = []
+    want_role = [None]
 
     def disjoint_fact(e, truth):
         # a comparison mentioning an IN-role and an OUT/TEMP-role value; the
@@ -480,7 +481,8 @@ def check_setup(ctx, repo):
                 for nm in ast.walk(n):
                     if isinstance(nm, ast.Name):
                         rs |= roles.of(nm)
-                if "IN" in rs and (rs & {"OUT", "TEMP"}):
+                if "IN" in rs and (rs & {"OUT", "TEMP"}) and (
+                        want_role[0] is None or want_role[0] in rs):
                     if isinstance(n, ast.Compare):
                         sides = [n.left] + list(n.comparators)
                         canon = all(
@@ -506,6 +508,10 @@ def check_setup(ctx, repo):
             continue
         st = _stmt_of(c)
         guarded = False
+        # the test must cover the paths of this very role (the temporary
+        # name can alias an input although the output does not)
+        want_role[0] = role
+        del unresolved[:]
         # idiom 1: an earlier statement raises when an output aliases an
         # input; the test may sit in loops over the path lists (no iteration
         # = no paths = nothing to alias), the outermost such loop must
@@ -626,6 +632,10 @@ MUTANTS = [
      "dclab/cli/common.py",
      ("if pp.resolve() == pi.resolve():",
       "if pp.absolute() == pi.absolute():"), "R10.5"),
+    ("alias guard covers outputs only (seeded C08_2)",
+     "dclab/cli/common.py",
+     ("        for pp in paths_out + paths_temp:\n",
+      "        for pp in paths_out:\n"), "R10.5"),
     ("alias guard removed (F10 returns)", "dclab/cli/common.py",
      ("            if pp.resolve() == pi.resolve():\n",
       "            if False:\n"), "R10.5"),
